@@ -68,7 +68,7 @@ def prefix(rng):
 def plant(rng, arch, b):
     """writes the faulty statement into builder b; returns (kind, phase, [acceptable (line, col)], trailer lines for the root file)"""
     ind, ops = prefix(rng)
-    kind = rng.choice(["directive", "char", "undef", "undef", "range", "range", "range_fwd", "range_fwd", "assert", "assert_fwd", "die", "die_expr", "dupconst", "duplabel", "instr_range", "instr_undef", "instr_fwd"])
+    kind = rng.choice(["directive", "char", "undef", "undef", "range", "range", "range_fwd", "range_fwd", "assert", "assert_fwd", "die", "die_expr", "dupconst", "duplabel", "instr_range", "instr_undef", "instr_fwd", "struct_align"])
     trailer = []
     sfx = rng.choice(["", " ", " ; c", "\t; " + rng.choice(NONASCII)])
     def stmt(head, tok, tail=""):
@@ -135,6 +135,16 @@ def plant(rng, arch, b):
         p0 = b.mark()
         b.text += "@die " + rng.choice(["42", "( 6 * 7 )", "dupc", "dupc + 1", "1, \\\n  2"][:4]) + sfx + "\n"
         return kind, "A", [p0], trailer
+    if kind == "struct_align":
+        # a faulty member several lines into a struct declaration: located at the member's operand, not at the struct
+        sn = "Sx%d" % rng.randrange(10**6)
+        b.text += ind + "@struct " + sn + sfx + "\n"
+        for k in range(rng.randrange(0, 4)):
+            b.text += rng.choice(["  fa%d 2\n", "  fb%d @dw\n", "\n", "  ; c\n", "  @ds 3\n", "  @align 4\n"]).replace("%d", str(k))
+        b.text += rng.choice(["  ", "\t", ""]) + "@align "
+        p = b.mark()
+        b.text += rng.choice(["1", "0", "0 - 4", "( 1 )", "dupc"]) + sfx + "\n@endstruct\n"
+        return kind, "A", [p], trailer
     if kind == "dupconst":
         b.text += ind
         p0 = b.mark()
